@@ -6,12 +6,14 @@ use crate::report::{self, Report, Violation};
 use serde_json::json;
 use std::collections::{BTreeMap, BTreeSet};
 
-const FORMS: [&str; 16] = [
+const FORMS: [&str; 19] = [
     "use-single", "use-group", "use-nested-group", "use-glob", "qualified-path", "qualified-nested-path", "use-crate", "use-super", "use-self",
     // the target as a generic argument of a type of a third crate
     "qualified-generic-of-qualified", "qualified-generic-of-used", "used-generic-of-qualified", "qualified-generic-of-nested-qualified",
     // the target only in a non-last generic argument position
     "map-key-used", "pair-first-arg-of-used-generic", "pair-first-arg-qualified-generic-of",
+    // a grouped use that also names things that are not types (functions, modules, self)
+    "use-group-function-after-type", "use-group-function-before-type", "use-group-nested-with-self-and-function",
 ];
 
 fn third_crate(form: &str) -> bool {
@@ -52,6 +54,9 @@ fn workspace(c: &Case) -> Vec<(String, String)> {
         "qualified-generic-of-used" => (format!("use {tc}::Target;\n"), "shapes::Page<Target>".to_string()),
         "used-generic-of-qualified" => ("use shapes::Page;\n".to_string(), format!("Page<{tc}::Target>")),
         "qualified-generic-of-nested-qualified" => (String::new(), format!("shapes::inner::Page<Option<{tc}::deep::Target>>")),
+        "use-group-function-after-type" => (format!("use {tc}::{{models::Target, util::checksum}};\n"), "Target".to_string()),
+        "use-group-function-before-type" => (format!("use {tc}::{{util::checksum, models::Target}};\n"), "Target".to_string()),
+        "use-group-nested-with-self-and-function" => (format!("use {tc}::{{self, models::{{Target, helpers::make_target}}, VERSION}};\n"), "Target".to_string()),
         "map-key-used" => (format!("use {tc}::Target;\n"), "HashMap<Target, u32>".to_string()),
         "pair-first-arg-of-used-generic" => (format!("use {tc}::Target;\nuse shapes::Pair;\n"), "Pair<Target, String>".to_string()),
         "pair-first-arg-qualified-generic-of" => (String::new(), format!("shapes::Pair<{tc}::Target, Vec<u32>>")),
